@@ -4,7 +4,7 @@
 cd /verif
 for d in seeded/*/; do
   n=$(basename $d)
-  p=$(python3 -c "import json;print(json.load(open('$d/meta.json'))['property'])")
+  p=$(python3 -c "import json;print((lambda m: m.get('check_property_for_rerun', m['property']))(json.load(open('$d/meta.json'))))")
   out=$(tools/seeded.sh try $n $p 2>&1)
   rc=$(echo "$out" | grep -o "exit\[$p\]=[0-9]*" | cut -d= -f2)
   key=$(echo "$out" | grep -m1 "^violation" | sed 's/.*key=\([^ ]*\).*/\1/')
